@@ -68,6 +68,7 @@ class World:
         self.errors = []
         self.eq = {}
         self.log = []
+        self.cache_ids = []
 
     def node(self, name):
         n = CNode(self, f'{name}#{len(self.nodes)}')
@@ -135,6 +136,13 @@ class CNode:
     @property
     def ref(self):
         return SymInt(self.base + self.w.net[self])
+
+
+class CacheId:
+    """the tag under which a recursion memoises in CUDD's computed table"""
+
+    def __init__(self, cname):
+        self.cname = cname
 
 
 class Handle:
@@ -229,7 +237,9 @@ class NS(dict):
             f = 65535
         elif name in ('cuddE', 'cuddT'):
             f = lambda u, _n=name: w.node(_n)
-        elif name in ('cuddCacheInsert2', 'PyMem_Free'):
+        elif name == 'cuddCacheInsert2':
+            f = lambda mgr, cid, *a: w.cache_ids.append(('insert', getattr(cid, 'cname', repr(cid))))
+        elif name == 'PyMem_Free':
             f = lambda *a: None
         elif name == 'PyMem_Malloc':
             f = lambda n: [None] * int(n)
@@ -240,7 +250,7 @@ class NS(dict):
         elif name in ('DdRef', 'DdManager', 'Function'):
             f = object
         elif name.endswith('_cache_id'):
-            f = object()
+            f = CacheId(name)
         elif name.endswith('_root'):
             # `except NULL` functions: a failure arrives as an exception
             def f(*a, _n=name):
@@ -250,6 +260,10 @@ class NS(dict):
                 n = w.node(_n)
                 w.log.append(f'{_n} -> {n.name}')
                 return n
+        elif name == 'cuddCacheLookup2Zdd':
+            def f(mgr, cid, *a):
+                w.cache_ids.append(('lookup', getattr(cid, 'cname', repr(cid))))
+                return w.maybe('cuddCacheLookup2Zdd')
         elif name in MAYBE_NULL or name == self.own or name in TARGETS:
             f = lambda *a, _n=name: w.maybe(_n)
         else:
@@ -339,8 +353,13 @@ class Harness:
         def extract(model):
             return dict(harness='pyx_paths', which=self.which, trace=[list(t) if isinstance(t, tuple) else t for t in trace],
                         outcome=outcome, log=w.log[-40:], off={k: list(v) for k, v in off.items()},
-                        errors=list(w.errors))
+                        errors=list(w.errors), cache_ids=[list(t) for t in w.cache_ids])
         goals = [Goal(f'{self.which}_holds_no_temporary_reference_at_exit', z3.BoolVal(not off))]
+        # results are memoised in the library's computed table under the recursion's *own* tag
+        # (a lookup under another recursion's tag returns that recursion's results)
+        own_tag = f'{self.which}_cache_id'
+        foreign = [t for t in w.cache_ids if t[1] != own_tag]
+        goals.append(Goal(f'{self.which}_memoises_under_its_own_tag', z3.BoolVal(not foreign)))
         res = base.discharge(goals, [], extract)
         if isinstance(ret, Handle):
             ret.owned = False
@@ -364,6 +383,10 @@ def replay(case):
     bad = [g for g in out['goals'] if g['status'] != 'unsat']
     if bad:
         cs = bad[0].get('case') or {}
+        if 'own_tag' in bad[0]['name']:
+            return dict(violates=True, key=f'pyx/cudd_zdd/{case["which"]}/foreign-cache-tag',
+                        detail=f'cudd_zdd.pyx {case["which"]} uses the computed table under {cs.get("cache_ids")} '
+                               f'(its own tag is {case["which"]}_cache_id)', observed=dict(outcome='returned'))
         what = 'null-deref' if 'null' in bad[0]['name'] else 'reference-held-at-exit'
         return dict(violates=True, key=f'pyx/cudd_zdd/{case["which"]}/{what}',
                     detail=f'cudd_zdd.pyx {case["which"]}: on the path [{"; ".join(cs.get("log", case.get("log", [])))}] '
